@@ -188,7 +188,7 @@ def fuzz_runner(sub, tier, seed, shard, nshards, rec):
     os.environ["VFW_FUZZ_MODE"] = "c11"
     fuzzrun.run_campaign(sub, tier, seed, shard, nshards, rec,
                          os.path.join(VERIF, "vfw", "fuzz", "indx_fuzz.py"),
-                         {"quick": 2000, "thorough": 250000}, asan=False, seed_corpus=fuzz_seeds, max_len=4096)
+                         {"quick": 2000, "thorough": 120000}, asan=False, seed_corpus=fuzz_seeds, max_len=4096)
 
 
 SUBS = [
